@@ -985,6 +985,88 @@ def check_deep(ctx, fail):
     ctx.extra["deep_nesting"] = table
 
 
+def _nest(members, shape, rng, style):
+    """group `members` (leaf visitors, in order) into nested ChainedVisitors of depth 2-3 following `shape`"""
+    _v = V()
+
+    class Sub(_v.ChainedVisitor):       # configures itself after super().__init__(), no enter / leave of its own
+        def __init__(self, *vs):
+            super().__init__()
+            self.visitors = tuple(vs)
+
+    def mk(items):
+        cls = Sub if style == "subclass" else _v.ChainedVisitor
+        if style == "assigned":
+            c = _v.ChainedVisitor()
+            c.visitors = list(items)
+            return c
+        return cls(*items)
+
+    def build(sh, it):
+        out = []
+        for x in sh:
+            out.append(mk(build(x, it)) if isinstance(x, list) else next(it))
+        return out
+    return mk(build(shape, iter(members)))
+
+
+NEST_SHAPES = {
+    3: [[[0, 0], 0], [0, [0, 0]], [[0], [0, 0]], [[[0, 0]], 0]],
+    4: [[[0, 0], [0, 0]], [0, [0, [0, 0]]], [[[0, 0], 0], 0], [[0], [[0, 0], 0]]],
+    5: [[[0, 0], 0, [0, 0]], [[0, [0, 0]], [0, 0]]],
+}
+
+
+def check_chain_nested_flat(ctx, text, kw, fail, k, shape_no, pos, style, rng):
+    """A chain whose members are themselves plain chains (depth 2-3) behaves as its FLATTENING: the leaf visitors
+    enter in order and leave in reverse around every node; when leaf j raises SkipNode at a node every leaf enters it,
+    every leaf but the raiser leaves it (in reverse), its children are visited by nobody. Every j in turn."""
+    _v = V()
+    doc1 = parse_doc(text, kw)
+    single = []
+    make_recorder(_v.ASTVisitor, 0, single).visit(doc1)
+    idx1 = Index(doc1)
+    order1 = {id(n): q for q, n in enumerate(idx1.nodes)}
+    ent1 = [e[-1] for e in single if e[-2] == "enter"]
+    pos = min(pos, len(ent1) - 1)
+    i0, j0 = segment(single, ent1[pos])
+    shape = NEST_SHAPES[k][shape_no % len(NEST_SHAPES[k])]
+    for j in [None] + list(range(k)):
+        doc = parse_doc(text, kw)
+        idx = Index(doc)
+        x = idx.nodes[order1[id(ent1[pos])]]
+        before = doc.to_dict()
+        trace = []
+        leaves = [make_recorder(_v.ASTVisitor if t % 2 == 0 else _v.DispatchingVisitor, t, trace,
+                                {id(x): ("skip", None)} if t == j else None) for t in range(k)]
+        try:
+            res = _nest(leaves, shape, rng, style).visit(doc)
+        except Exception as e:  # noqa
+            fail("chain:nested-flat:raises", "a chain of chains raises %s" % type(e).__name__,
+                 {"nested_flat": shape_no, "chain": k, "pos": pos, "style": style})
+            return
+        ctx.count()
+        exp = []
+        for q, e in enumerate(single):
+            if j is not None and q == i0:
+                exp += [(t,) + key(e) for t in range(k)]
+            elif j is not None and q == j0 - 1:
+                exp += [(t,) + key(e) for t in range(k - 1, -1, -1) if t != j]
+            elif j is not None and i0 < q < j0:
+                continue
+            else:
+                tags = range(k) if e[-2] == "enter" else range(k - 1, -1, -1)
+                exp += [(t,) + key(e) for t in tags]
+        got = [(e[0],) + key(e) for e in trace]
+        if got != exp or res is not doc or doc.to_dict() != before:
+            cause = "order" if j is None else ("skip-order" if sorted(map(str, got)) == sorted(map(str, exp)) else "skip-calls")
+            fail("chain:nested-flat:%s" % cause,
+                 "a chain of plain chains does not behave as its flattening (leaf visitors enter in order and leave in reverse; %s)"
+                 % ("no skip" if j is None else "leaf %d raises SkipNode" % j),
+                 {"nested_flat": shape_no, "chain": k, "pos": pos, "style": style, "member": j})
+            return
+
+
 def check_transforms(ctx, text, kw, fail):
     """the real helpers of py_gql.utilities.ast_transforms"""
     import py_gql.utilities.ast_transforms as T
